@@ -259,6 +259,14 @@ def gen_file(r, well=True):
     machine = EM_RISCV if r.random() < 0.85 else r.choice([EM_X86_64, EM_ARM, 0, 0xffff])
     names = r.random() < 0.7
     shnull = names or r.random() < 0.7
+    if r.random() < 0.05:
+        # a PT_LOAD whose file range reaches past the end of the file, sizes around the 512-byte read buffer
+        fsz = r.choice([0x300, 0x800, 0x2000, r.randint(600, 5000)])
+        msz = r.choice([fsz, fsz + 64, fsz - 1, fsz // 2, 513, 600, r.randint(513, fsz)])
+        g = Seg(PT_LOAD, (segbase + 0x100000) % (2 ** bits - 0x10000), b"", memsz=msz, filesz=fsz, flags=6, offset=0)
+        segs.append(g)
+        total = len(build_elf(bits, big, etype, entry, secs, segs, machine=machine, names=names, shnull=shnull))
+        g.offset = max(0, total - r.choice([0, 1, 100, 400, 511, 512, 513, 600]))
     b = build_elf(bits, big, etype, entry, secs, segs, machine=machine, names=names, shnull=shnull)
     return b, dict(bits=bits, secs=secs, segs=segs, etype=etype)
 
@@ -487,6 +495,7 @@ def startup_file(r):
     bad = 0.2 if 0.67 <= k < 0.77 else 0.0
     secs, segs, cur = [], [], base
     starts = []
+    eofseg = False
     for i in range(nblocks):
         nw = r.choice([1, 2, 3, 4, 8, 16]) if r.random() < 0.9 else r.randint(17, 60)
         text = program(r, nw, outside, bad)
@@ -522,10 +531,23 @@ def startup_file(r):
         machine = r.choice([EM_X86_64, EM_ARM])                         # another machine: foreign code
         secs[0].data = rbytes(r, len(secs[0].data))
     elif 0.95 <= k < 0.97:
-        segs[0].memsz = max(0, segs[0].filesz - r.randint(1, 4))        # memsz < filesz
+        if r.random() < 0.5:
+            segs[0].memsz = max(0, segs[0].filesz - r.randint(1, 4))    # memsz < filesz
+        else:
+            eofseg = True
     r.shuffle(secs) if r.random() < 0.3 else None
     r.shuffle(segs) if r.random() < 0.3 else None
-    b = build_elf(bits, big, etype, entry, secs, segs, machine=machine, names=r.random() < 0.8)
+    names = r.random() < 0.8
+    if eofseg:
+        # a PT_LOAD whose file range reaches past the end of the file (fewer bytes can be read than p_filesz),
+        # with p_memsz below, at or above p_filesz and above the first read buffer of io.ReadAll (512 bytes)
+        fsz = r.choice([0x300, 0x800, 0x2000, r.randint(600, 5000)])
+        msz = r.choice([fsz, fsz + 64, fsz - 1, fsz // 2, 513, 600, r.randint(513, fsz)])
+        g = Seg(PT_LOAD, cur + 0x100000, b"", memsz=msz, filesz=fsz, flags=6, offset=0)
+        segs.append(g)
+        total = len(build_elf(bits, big, etype, entry, secs, segs, machine=machine, names=names))
+        g.offset = max(0, total - r.choice([0, 1, 100, 400, 511, 512, 513, 600]))
+    b = build_elf(bits, big, etype, entry, secs, segs, machine=machine, names=names)
     if k >= 0.97:
         b = mutate(r, b)
     return b
